@@ -105,7 +105,7 @@ func TestC05(t *testing.T) {
 		Filters: []string{"f0", "f1"}, Fmts: []string{"m0"}, Sinks: []string{"k0"},
 		Policies: []string{"", "", "AllowOverwrite", "DenyOverwrite", "Bogus"}, Malformed: 45, DupIDs: 15,
 	}
-	nh := run.N(10000, 300000)
+	nh := run.N(40000, 400000)
 	for i := 0; i < nh && !run.Stop(); i++ {
 		cr := r.Fork()
 		n := cr.Range(1, 6)
@@ -128,6 +128,13 @@ func TestC05(t *testing.T) {
 					run.Violation("history-pattern:is-any-registered", fmt.Sprintf("IsAnyPipelineRegistered(%s)=%v but %d pipelines are registered", ty, got, len(shadow.M.PipesOf(ty))), map[string]any{"history": opsString(h)})
 				}
 			}
+			if op.Kind == "regpipe" && out.ModelSet && out.RealOK != out.ModelOK {
+				// the acceptance clause, in a registry state reached by a history (node ids re-registered with
+				// other types, pipelines overwritten, ...): the model's predicate is the statement's
+				run.Violation("history-pattern:acceptance:history", fmt.Sprintf("%s: accepted=%v (err=%v) but the definition is well-formed and permitted=%v in the registry state the history produced", op, out.RealOK, out.RealErr, out.ModelOK),
+					map[string]any{"history": opsString(h)})
+				break
+			}
 			failed := !out.RealOK && op.Kind != "rmpipe"
 			if !failed {
 				if out.Mismatch != "" {
@@ -141,8 +148,8 @@ func TestC05(t *testing.T) {
 			mismatch := out.Mismatch
 			// the failing call must be a no-op: replay with and without it and compare what can be observed
 			run.Progress("C05 noop %v", opsString(h))
-			with := replayOps(h, plainStyle, 11).Observe(a.Types, a.allIDs())
-			without := replayOps(h[:len(h)-1], plainStyle, 11).Observe(a.Types, a.allIDs())
+			with := replayOps(h, plainStyle, 11).ObserveDeep(a.Types, a.Pids, a.allIDs())
+			without := replayOps(h[:len(h)-1], plainStyle, 11).ObserveDeep(a.Types, a.Pids, a.allIDs())
 			same := len(with) == len(without)
 			for k := 0; same && k < len(with); k++ {
 				same = with[k] == without[k]
